@@ -579,6 +579,29 @@ def check_real(cfg):
     out2 = StepwizeOptimizer(t2, budget, cfg["step"]).optimize()
     if list(out2.state) != st or out2.get_value() != val:
         bad("same inputs, different result", first=st, second=list(out2.state))
+    # the caller's target is an INPUT: optimizing must not change it, a result must not change when the same target is optimized
+    # again with another budget, and that second run must give what a fresh target gives (budget sweep over one prototype)
+    if list(target.state) != start:
+        bad("optimize() changed the state of the target it was given", state=list(target.state), start=start, budget=budget)
+    if list(out.state) != st:
+        bad("the returned result changed after it was returned", first=st, now=list(out.state))
+    for b2 in (max(0, budget // 3), 0, budget + max(1, budget // 2)):
+        try:
+            o_same = StepwizeOptimizer(target, b2, cfg["step"]).optimize()
+            t_fresh, _s, _l, _o = build_target(cfg)
+            o_fresh = StepwizeOptimizer(t_fresh, b2, cfg["step"]).optimize()
+        except Exception as e:
+            bad("optimize() raised %r on a second run over the same target" % e, budget=b2)
+            break
+        if list(o_same.state) != list(o_fresh.state):
+            bad("a second run over the SAME target object (other budget) differs from the run over a fresh target",
+                first_budget=budget, budget=b2, same_target=list(o_same.state), fresh_target=list(o_fresh.state),
+                cost=o_same.get_cost())
+            break
+        if list(out.state) != st or list(target.state) != start:
+            bad("a later run over the same target rewrote an earlier result or the target itself", first_budget=budget, budget=b2,
+                earlier_result_now=list(out.state), earlier_result=st, target_now=list(target.state), start=start)
+            break
     # does the configured armour matter here? (coverage only)
     armour_matters = None
     if cfg["armor"] != 300:
